@@ -103,6 +103,9 @@ def run(ctx):
     # several miners, one after the other, through ONE real TCP handler (one configured destination): what the pool is presented with
     cases += one(ctx, "tcphandlers", "TestVerifC17Handler$", "c17h.impl.txt", 60 if ctx.tier == "quick" else 1500, "name presented by the TCP handler's session")
     n_wire = names_on_the_wire(ctx)
+    # … and on connections that replace a failed one (lifecycle harness: the real TCP handler, a contract task, pool failures)
+    import sesslib
+    ctx.coverage["submits_after_reconnects_compared"] = sesslib.after_reconnect(ctx, "C17")
     ops = {}
     distinct = set()
     for h, lines in cases:
